@@ -96,7 +96,14 @@ def loop_body_order_sensitivity(repo, fi: FuncInfo, loop: ast.For) -> list[str]:
 
 
 def _kw_given(name: str):
-    return lambda fi, call: any(k.arg == name for k in call.keywords)
+    """The keyword is passed, and not as None or as the ambient value itself."""
+    def test(fi: FuncInfo, call: ast.Call) -> bool:
+        for k in call.keywords:
+            if k.arg == name:
+                src = ast.unparse(k.value)
+                return not (isinstance(k.value, ast.Constant) and k.value.value is None) and "sys.path" not in src and "getcwd" not in src and "os.curdir" not in src
+        return False
+    return test
 
 
 def _has_string_arg(prefix: str):
